@@ -280,9 +280,10 @@ def derive(src, how, a, get):
 
 
 class QueryResult:
-    __slots__ = ("kind", "err", "shape_sig", "tensors", "detail", "ops")
+    __slots__ = ("kind", "err", "shape_sig", "tensors", "detail", "ops", "raw")
 
-    def __init__(self, kind, err, shape_sig, tensors, detail="", ops=()):
+    def __init__(self, kind, err, shape_sig, tensors, detail="", ops=(), raw=None):
+        self.raw = raw  # the object the library returned (identity matters for the key-discipline oracle)
         self.kind = kind  # "ok"
         self.err = err
         self.shape_sig = shape_sig
@@ -358,13 +359,13 @@ def q_cholesky(op, a, D, get):
     if bad > 1e-12 * max(1.0, float(L.abs().max())):
         err = max(err, 1.0)
         detail = f"factor is not {'upper' if upper else 'lower'} triangular (max wrong-side entry {bad:.3g})"
-    return QueryResult("ok", err, _sig(res), [L], detail, ops=[res] if isinstance(res, LinearOperator) else [])
+    return QueryResult("ok", err, _sig(res), [L], detail, ops=[res] if isinstance(res, LinearOperator) else [], raw=res)
 
 
 def q_root_decomposition(op, a, D, get):
     res = op.root_decomposition(method=a["method"]) if a.get("method") else op.root_decomposition()
     R = _dense(res.root).double()
-    return QueryResult("ok", _rel(R @ R.mT, D), ("root", tuple(res.shape)), [R], ops=[res])
+    return QueryResult("ok", _rel(R @ R.mT, D), ("root", tuple(res.shape)), [R], ops=[res], raw=res)
 
 
 def q_root_inv_decomposition(op, a, D, get):
@@ -381,7 +382,7 @@ def q_root_inv_decomposition(op, a, D, get):
     err = float(torch.linalg.norm((R @ R.mT @ D.double() - _eye_like(D)).reshape(-1))) / math.sqrt(n * max(1, D[..., 0, 0].numel()))
     if not math.isfinite(err):
         err = float("inf")
-    return QueryResult("ok", err, ("root_inv", tuple(res.shape)), [R], ops=[res])
+    return QueryResult("ok", err, ("root_inv", tuple(res.shape)), [R], ops=[res], raw=res)
 
 
 def _eig_err(evals, evecs, D):
@@ -396,10 +397,11 @@ def _eig_err(evals, evecs, D):
 
 
 def q_diagonalization(op, a, D, get):
-    evals, evecs = op.diagonalization(method=a["method"]) if a.get("method") else op.diagonalization()
+    raw_ = op.diagonalization(method=a["method"]) if a.get("method") else op.diagonalization()
+    evals, evecs = raw_
     err, detail = _eig_err(evals, evecs, D)
     return QueryResult("ok", err, _sig(evals, evecs), [evals, _dense(evecs)] if evecs is not None else [evals], detail,
-                       ops=[evecs] if isinstance(evecs, LinearOperator) else [])
+                       ops=[evecs] if isinstance(evecs, LinearOperator) else [], raw=raw_)
 
 
 def q_eigh(op, a, D, get):
@@ -419,10 +421,11 @@ def q_eigvalsh(op, a, D, get):
 
 
 def q_svd(op, a, D, get):
-    U, Sv, V = op.svd()
+    raw_ = op.svd()
+    U, Sv, V = raw_
     Ud, Vd = _dense(U).double(), _dense(V).double()
     rec = Ud @ torch.diag_embed(Sv.double()) @ Vd.mT
-    return QueryResult("ok", _rel(rec, D), _sig(U, Sv, V), [Ud, Sv, Vd], ops=[x for x in (U, V) if isinstance(x, LinearOperator)])
+    return QueryResult("ok", _rel(rec, D), _sig(U, Sv, V), [Ud, Sv, Vd], ops=[x for x in (U, V) if isinstance(x, LinearOperator)], raw=raw_)
 
 
 def q_solve(op, a, D, get):
